@@ -153,6 +153,13 @@ func (self *DbImpl) Update(ctx MutateContext, fn func(ctx MutateContext) error) 
 		// it for another transaction (a retry), with which they would run - the commit actions of work that never
 		// took place, and a failing pre-commit action again and again
 		preCommitCount, commitCount := ctx.actionCounts()
+		committed := false
+		defer func() {
+			// also when fn panicked and the caller recovers
+			if !committed {
+				ctx.truncateActions(preCommitCount, commitCount)
+			}
+		}()
 
 		err := self.db.Update(func(tx *bbolt.Tx) error {
 			ctx.setTx(tx)
@@ -174,9 +181,7 @@ func (self *DbImpl) Update(ctx MutateContext, fn func(ctx MutateContext) error) 
 
 			return nil
 		})
-		if err != nil {
-			ctx.truncateActions(preCommitCount, commitCount)
-		}
+		committed = err == nil
 		return err
 	}
 
